@@ -5,12 +5,9 @@ From Verif Require Import Common.Base Common.Tactics Gen.PrattTable JsExpr.Synta
 (* ---- the generated operator table against the standard's level table ---------------------------------- *)
 
 (* Every row T3 extracts from parseExpressionSuffix / parseExpression equals the row computed from the
-   productions of Grammar.v, except for one parameter: the level recorded after a prefix ++/-- . *)
-Lemma table_matches_standard_partial_proof : pratt_rows_of_code = std_rows Unary.
+   productions of Grammar.v. *)
+Lemma table_matches_standard_proof : pratt_rows_of_code = pratt_rows_of_ecma262.
 Proof. vm_compute. reflexivity. Qed.
-
-Lemma table_matches_standard_refuted_proof : pratt_rows_of_code <> pratt_rows_of_ecma262.
-Proof. vm_compute. discriminate. Qed.
 
 (* ---- tokens used in witnesses and examples ------------------------------------------------------------ *)
 
@@ -39,7 +36,7 @@ Proof. vm_compute. reflexivity. Qed.
 Definition is_ident_tok (k : token) : Prop := ty k = tt_IdentifierToken.
 
 Lemma reject_unary_exp_small_proof :
-  forall u a b e, In (ty u) [tt_SubToken; tt_AddToken; tt_NotToken; tt_BitNotToken; tt_TypeofToken; tt_VoidToken; tt_DeleteToken; tt_IncrToken; tt_DecrToken] ->
+  forall u a b e, In (ty u) [tt_SubToken; tt_AddToken; tt_NotToken; tt_BitNotToken; tt_TypeofToken; tt_VoidToken; tt_DeleteToken] ->
     is_ident_tok a -> is_ident_tok b -> ty e = tt_ExpToken ->
     parse_all [u; a; e; b] = Fail.
 Proof.
@@ -85,15 +82,15 @@ Qed.
 
 From Verif Require Import JsExpr.Spec JsExpr.TableFacts JsExpr.Fuel JsExpr.Sound JsExpr.Complete JsExpr.Equiv.
 
-(* every derivation of an Expression whose tree has no `++x ** y` / `--x ** y` node is parsed to exactly that tree *)
-Lemma pratt_complete_partial_proof :
-  forall inf ts t, derives inf Expression ts t -> no_pue t = true -> parse inf prec_OpExpr ts = Ok (t, []).
+(* every derivation of an Expression is parsed to exactly that tree *)
+Lemma pratt_complete_proof :
+  forall inf ts t, derives inf Expression ts t -> parse inf prec_OpExpr ts = Ok (t, []).
 Proof.
-  intros inf ts t d Hn. destruct (derives_spells _ _ _ _ d Hn) as [Hs Hi]. cbn [inv code_level] in Hi.
+  intros inf ts t d. destruct (derives_spells _ _ _ _ d) as [Hs Hi]. cbn [inv code_level] in Hi.
   apply parse_complete; auto. pose proof prec_order. lia.
 Qed.
 
-(* ... and the restriction is needed: `++a ** b` is derivable (UpdateExpression ** ExponentiationExpression) but rejected *)
+(* `++a ** b` (UpdateExpression ** ExponentiationExpression; rejected before efda118) *)
 Definition w_pue : list token := [op tt_IncrToken; ida; op tt_ExpToken; idb].
 Definition t_pue : expr := EBinary tt_ExpToken (EUnary tt_PreIncrToken va) vb.
 
@@ -128,57 +125,27 @@ Proof.
   - apply derives_ident. cbn. tauto.
 Qed.
 
-Lemma pratt_complete_refuted_proof :
-  exists ts t, derives true Expression ts t /\ parse true prec_OpExpr ts = Fail.
-Proof. exists w_pue, t_pue. split; [exact w_pue_derivable|vm_compute; reflexivity]. Qed.
+Example prefix_update_exp_base_example :
+  derives true Expression w_pue t_pue /\ parse true prec_OpExpr w_pue = Ok (t_pue, []).
+Proof. split; [exact w_pue_derivable|vm_compute; reflexivity]. Qed.
 
-(* whatever the model accepts is a derivation of the returned tree, once the trailing commas that
-   parseParenthesizedExpression lets through in `( ... , )` are deleted *)
-Lemma pratt_sound_partial_proof :
-  forall inf ts t, parse inf prec_OpExpr ts = Ok (t, []) ->
-    exists ts', dropc true ts ts' /\ derives inf Expression ts' t.
+(* whatever the model accepts is a derivation of the returned tree from exactly the accepted token list *)
+Lemma pratt_sound_proof :
+  forall inf ts t, parse inf prec_OpExpr ts = Ok (t, []) -> derives inf Expression ts t.
 Proof.
   intros inf ts t H. destruct (parse_sound _ _ _ _ _ H) as [pre [E [Hs _]]].
   { pose proof prec_order. lia. }
   rewrite app_nil_r in E. subst pre. apply spells_derives_expression. exact Hs.
 Qed.
 
-(* no `, )` in the input: nothing to delete *)
-Fixpoint no_comma_close (ts : list token) : bool :=
-  match ts with
-  | a :: (b :: _) as r => negb ((ty a =? tt_CommaToken) && (ty b =? tt_CloseParenToken)) && no_comma_close r
-  | _ => true
-  end.
+(* `(a,)` (accepted as `(a)` before a1df361) and `x=(a,b,)` *)
+Definition w_trailing : list token := [op tt_OpenParenToken; ida; op tt_CommaToken; op tt_CloseParenToken].
 
-Lemma dropc_strict q ts ts' : dropc q ts ts' -> no_comma_close ts = true -> ts = ts'.
-Proof.
-  induction 1 as [q|q k ts ts' Hd IH|km kc ts ts' Hkm Hkc Hd IH]; intros Hn.
-  - reflexivity.
-  - f_equal. apply IH. destruct ts as [|b r]; [reflexivity|].
-    cbn [no_comma_close] in Hn. apply andb_true_iff in Hn. destruct Hn as [_ Hn]. exact Hn.
-  - exfalso. cbn [no_comma_close] in Hn. rewrite Hkm, Hkc, !Z.eqb_refl in Hn. discriminate.
-Qed.
-
-Lemma pratt_sound_strict_proof :
-  forall inf ts t, parse inf prec_OpExpr ts = Ok (t, []) -> no_comma_close ts = true -> derives inf Expression ts t.
-Proof.
-  intros inf ts t H Hn. destruct (pratt_sound_partial_proof _ _ _ H) as [ts' [Hd Hder]].
-  rewrite (dropc_strict _ _ _ Hd Hn). exact Hder.
-Qed.
-
-(* ... and the deletion is needed: `(a,)` is accepted as the tree of `(a)` but is not derivable *)
-Definition w_quirk : list token := [op tt_OpenParenToken; ida; op tt_CommaToken; op tt_CloseParenToken].
-
-Lemma pratt_sound_refuted_proof :
-  exists ts t, parse true prec_OpExpr ts = Ok (t, []) /\ ~ derives true Expression ts t.
-Proof.
-  exists w_quirk, (EGroup va). split; [vm_compute; reflexivity|].
-  intros d. destruct (derives_spells _ _ _ _ d eq_refl) as [Hs _].
-  (* a strict spelling is parsed at every level up to its own; at level OpUnary the parser takes the plain group path *)
-  assert (H : parse true prec_OpUnary w_quirk = Ok (EGroup va, [])).
-  { apply parse_complete; auto; [lia|]. cbn [lvl]. vm_compute. discriminate. }
-  vm_compute in H. discriminate.
-Qed.
+Example paren_trailing_comma_example :
+  parse true prec_OpExpr w_trailing = Fail /\
+  parse true prec_OpExpr [idc; op tt_EqToken; op tt_OpenParenToken; ida; op tt_CommaToken; idb; op tt_CommaToken; op tt_CloseParenToken] = Fail /\
+  parse true prec_OpExpr [idc; op tt_OpenParenToken; ida; op tt_CommaToken; op tt_CloseParenToken] = Ok (ECall vc [va], []).
+Proof. repeat split; vm_compute; reflexivity. Qed.
 
 (* ====================================================================================================================== *)
 (* the listed rejections, for arbitrary operands                                                                            *)
@@ -189,23 +156,21 @@ Proof. intros [Hr [f Hf]]. eapply parse_of_fuel; eauto. Qed.
 Lemma view_exp inf : sview inf tt_ExpToken = ABin prec_OpExp prec_OpUpdate prec_OpUpdate prec_OpExp prec_OpExp.
 Proof. destruct inf; vm_compute; reflexivity. Qed.
 
-(* a prefix operator applied to the base of ** : `u x ** ...` is rejected whatever follows the ** *)
+(* a unary operator applied to the base of ** : `u x ** ...` is rejected whatever follows the ** *)
 Lemma reject_unary_exp_proof :
   forall inf u o xs x e rest,
-    In (ty u, o) unary_prods \/ In (ty u, o) prefix_update_prods ->
-    derives inf Unary xs x -> no_pue x = true -> ty e = tt_ExpToken ->
+    In (ty u, o) unary_prods ->
+    derives inf Unary xs x -> ty e = tt_ExpToken ->
     parse inf prec_OpExpr (u :: xs ++ e :: rest) = Fail.
 Proof.
-  intros inf u o xs x e rest Hu d Hn He. pose proof prec_order as PO.
-  destruct (derives_spells _ _ _ _ d Hn) as [Hs Hi]. cbn [inv code_level] in Hi.
+  intros inf u o xs x e rest Hu d He. pose proof prec_order as PO.
+  destruct (derives_spells _ _ _ _ d) as [Hs Hi]. cbn [inv code_level] in Hi.
   destruct (proj1 complete_all inf xs x Hs) as [HA _].
-  assert (Hv : exists g, pview u = PUnary g o prec_OpUnary prec_OpUnary /\ prec_OpUnary <= g).
-  { destruct Hu as [Hu|Hu]; [exists prec_OpUnary; split; [apply pview_unary; exact Hu|lia]
-                            |exists prec_OpUpdate; split; [apply pview_prefix_update; exact Hu|lia]]. }
-  destruct Hv as [g [Hv Hg]].
+  pose proof (pview_unary _ _ Hu) as Hv.
   assert (Hne : ncont inf prec_OpUnary (e :: rest) = true).
   { cbn [ncont]. rewrite He, view_exp. cbn [ret_view]. apply Z.ltb_lt. lia. }
-  apply PE_parse. eapply PE_unary; eauto.
+  apply PE_parse.
+  apply (PE_unary inf prec_OpExpr u prec_OpUnary o prec_OpUnary prec_OpUnary (xs ++ e :: rest) x (e :: rest) Fail Hv).
   - apply Z.ltb_ge. lia.
   - apply (right_operand inf xs x prec_OpUnary (e :: rest) HA); [lia|exact Hi|exact Hne].
   - eapply PS_bin_fail.
@@ -231,13 +196,13 @@ Proof. intros H. unfold okl_of. destruct (Z.ltb_spec p r); [lia|reflexivity]. Qe
 (* ?? next to || or && without parentheses, in either order *)
 Lemma reject_mixed_coalesce_proof :
   forall inf xs x q ys y o rest,
-    derives inf BitOR xs x -> derives inf BitOR ys y -> no_pue x = true -> no_pue y = true ->
+    derives inf BitOR xs x -> derives inf BitOR ys y ->
     ty q = tt_NullishToken -> ty o = tt_OrToken \/ ty o = tt_AndToken ->
     parse inf prec_OpExpr (xs ++ q :: ys ++ o :: rest) = Fail /\
     parse inf prec_OpExpr (xs ++ o :: ys ++ q :: rest) = Fail.
 Proof.
-  intros inf xs x q ys y o rest dx dy Hnx Hny Hq Ho. pose proof prec_order as PO.
-  destruct (derives_spells _ _ _ _ dx Hnx) as [Hsx Hix]. destruct (derives_spells _ _ _ _ dy Hny) as [Hsy Hiy].
+  intros inf xs x q ys y o rest dx dy Hq Ho. pose proof prec_order as PO.
+  destruct (derives_spells _ _ _ _ dx) as [Hsx Hix]. destruct (derives_spells _ _ _ _ dy) as [Hsy Hiy].
   cbn [inv code_level] in Hix, Hiy.
   destruct (proj1 complete_all inf xs x Hsx) as [HAx _]. destruct (proj1 complete_all inf ys y Hsy) as [HAy _].
   assert (Hvq : sview inf (ty q) = ABin prec_OpCoalesce prec_OpBitOr prec_OpCoalesce prec_OpBitOr prec_OpCoalesce)
@@ -276,20 +241,17 @@ Qed.
 Lemma reject_assign_to_binary_proof :
   forall inf a l ops r xs x k ys y e rest,
     In (a, l, ops, r) binary_prods -> a <> Assignment -> In (ty k) ops ->
-    derives inf l xs x -> derives inf r ys y -> no_pue (EBinary (ty k) x y) = true ->
+    derives inf l xs x -> derives inf r ys y ->
     In (ty e) assign_ops ->
     parse inf prec_OpExpr (xs ++ k :: ys ++ e :: rest) = Fail.
 Proof.
-  intros inf a l ops r xs x k ys y e rest Hp Ha Hk dx dy Hn He. pose proof prec_order as PO.
-  pose proof Hn as Hn'. cbn [no_pue] in Hn. apply andb_true_iff in Hn. destruct Hn as [Hn Hny].
-  apply andb_true_iff in Hn. destruct Hn as [Hpu Hnx].
-  destruct (derives_spells _ _ _ _ dx Hnx) as [Hsx Hix]. destruct (derives_spells _ _ _ _ dy Hny) as [Hsy Hiy].
+  intros inf a l ops r xs x k ys y e rest Hp Ha Hk dx dy He. pose proof prec_order as PO.
+  destruct (derives_spells _ _ _ _ dx) as [Hsx Hix]. destruct (derives_spells _ _ _ _ dy) as [Hsy Hiy].
   destruct (proj1 complete_all inf xs x Hsx) as [HAx _]. destruct (proj1 complete_all inf ys y Hsy) as [HAy _].
   pose proof (bin_view_of_prod _ _ _ _ _ inf Hp Hk) as Hv.
   assert (F : lv l <= lvl x /\ lv r <= lvl y /\ prec_OpAssign < lv r /\ lv r <= prec_OpUnary /\ prec_OpAssign < lv a /\ lv a < prec_OpLHS /\ prec_OpExpr <= lv l).
   { unfold binary_prods in Hp. cbn [In] in Hp.
-    repeat (destruct Hp as [Hp|Hp]; [inversion Hp; subst; try congruence; cbn [inv code_level lv] in *; try lia|]); try contradiction.
-    destruct Hix as [Hix|Hix]; [lia|]. exfalso. cbn [In] in Hk. destruct Hk as [Hk|[]]. rewrite <- Hk, Hix in Hpu. discriminate. }
+    repeat (destruct Hp as [Hp|Hp]; [inversion Hp; subst; try congruence; cbn [inv code_level lv] in *; try lia|]); try contradiction. }
   destruct F as [F1 [F2 [F3 [F4 [F5 [F6 F7]]]]]].
   apply PE_parse. apply HAx; try lia.
   - apply rcond_left. rewrite Hv. cbn [left_ok]. apply okl_true. lia.
@@ -301,6 +263,31 @@ Proof.
     + apply (PS_bin_fail inf _ prec_OpExpr (lv a) e rest _ _ _ _ _ (view_assign inf _ He)); [apply Z.ltb_ge; lia|apply okl_false; lia].
 Qed.
 
+(* `( Expression , )` without `=>`: the trailing comma of the arrow cover grammar is not a ParenthesizedExpression *)
+Lemma reject_paren_trailing_comma_proof :
+  forall inf ko xs x km kc rest,
+    ty ko = tt_OpenParenToken -> derives true Expression xs x ->
+    ty km = tt_CommaToken -> ty kc = tt_CloseParenToken ->
+    (forall a r, rest = a :: r -> ty a <> tt_ArrowToken) ->
+    parse inf prec_OpExpr (ko :: xs ++ km :: kc :: rest) = Fail.
+Proof.
+  intros inf ko xs x km kc rest Hko d Hkm Hkc Hna. pose proof prec_order as PO.
+  destruct (derives_spells _ _ _ _ d) as [Hs _].
+  destruct (proj1 complete_all true xs x Hs) as [_ HBC]. destruct (HBC eq_refl) as [_ HC].
+  apply PE_parse.
+  apply (PE_cover_fail inf prec_OpExpr ko prec_OpAssign prec_OpExpr (xs ++ km :: kc :: rest) (elems x) rest (pview_lp _ Hko)).
+  - apply Z.ltb_ge. lia.
+  - apply (HC [] false km (kc :: rest)). right. split; [exact Hkm|].
+    unfold next_close. rewrite Hkc, Z.eqb_refl. rewrite app_nil_r.
+    pose proof (PC_end kc rest (rev (elems x)) true Hkc) as P. rewrite rev_involutive in P. exact P.
+  - eapply elems_nonempty; exact Hs.
+  - exact Hna.
+Qed.
+
+Example ex_reject_paren_trailing_comma :
+  parse true prec_OpExpr (op tt_OpenParenToken :: [ida; op tt_CommaToken; idb] ++ op tt_CommaToken :: op tt_CloseParenToken :: [op tt_AddToken; idc]) = Fail.
+Proof. vm_compute. reflexivity. Qed.
+
 (* ---- brackets -------------------------------------------------------------------------------------------------------- *)
 
 From Verif Require Import JsExpr.Balance.
@@ -308,7 +295,7 @@ From Verif Require Import JsExpr.Balance.
 Lemma parse_balanced_proof inf ts t : parse inf prec_OpExpr ts = Ok (t, []) -> balanced ts.
 Proof.
   intros H. destruct (parse_sound _ _ _ _ _ H) as [pre [E [Hs _]]]; [pose proof prec_order; lia|].
-  rewrite app_nil_r in E. subst pre. exact (proj1 (spells_balanced true) _ _ _ Hs).
+  rewrite app_nil_r in E. subst pre. exact (proj1 spells_balanced _ _ _ Hs).
 Qed.
 
 (* one bracket token added to (or, read the other way, deleted from) an accepted token list: never accepted *)
@@ -335,10 +322,8 @@ Definition ex_tree : expr :=
 Example ex_parse : parse true prec_OpExpr ex_tokens = Ok (ex_tree, []).
 Proof. vm_compute. reflexivity. Qed.
 
-Example ex_derives : derives true Expression ex_tokens ex_tree /\ no_pue ex_tree = true /\ no_comma_close ex_tokens = true.
-Proof.
-  split; [|split; reflexivity]. apply pratt_sound_strict_proof; [exact ex_parse|reflexivity].
-Qed.
+Example ex_derives : derives true Expression ex_tokens ex_tree.
+Proof. apply pratt_sound_proof. exact ex_parse. Qed.
 
 Example ex_reject_unary_exp :
   In (ty (op tt_SubToken), tt_NegToken) unary_prods /\ derives true Unary [ida] va /\
@@ -346,7 +331,7 @@ Example ex_reject_unary_exp :
 Proof.
   split; [cbn; tauto|]. split; [apply derives_ident; cbn; tauto|].
   apply (reject_unary_exp_proof true (op tt_SubToken) tt_NegToken [ida] va (op tt_ExpToken) [idb]); auto.
-  - left. cbn. tauto.
+  - cbn. tauto.
   - apply derives_ident. cbn. tauto.
 Qed.
 
@@ -358,8 +343,8 @@ Proof. split; vm_compute; reflexivity. Qed.
 (* ====================================================================================================================== *)
 (* the entry point that is diffed against js.Parse: a whole program consisting of one expression statement                *)
 
-Lemma spells_starts q inf ts t : spells q inf ts t -> exists k r, ts = k :: r /\ starts_expr k.
-Proof. intros H. destruct (spells_first _ _ _ _ H) as [k [r [E S]]]. eauto. Qed.
+Lemma spells_starts inf ts t : spells inf ts t -> exists k r, ts = k :: r /\ starts_expr k.
+Proof. intros H. destruct (spells_first _ _ _ H) as [k [r [E S]]]. eauto. Qed.
 
 Lemma starts_not_stmt k : starts_expr k -> stmt_keyword (ty k) = false /\ (ty k =? tt_SemicolonToken) = false.
 Proof.
@@ -393,17 +378,17 @@ Qed.
 Lemma suffix_has_fuel inf left prec pl ts : parse_suffix (fuel_for ts) inf left prec pl ts <> NoFuel.
 Proof. apply (proj1 (proj2 (suff_all _))). unfold fuel_for. lia. Qed.
 
-(* Every grammatical expression of the fragment (without a `++x ** y` node, not starting with `let`), given as a whole
+(* Every grammatical expression of the fragment (not starting with `let`), given as a whole
    program, is parsed to the single expression statement with exactly that tree. *)
 Lemma program_of_expression_proof :
-  forall ts t, derives true Expression ts t -> no_pue t = true ->
+  forall ts t, derives true Expression ts t ->
     (forall k r, ts = k :: r -> ty k <> tt_LetToken) ->
     parse_program ts = Ok [SExpr t].
 Proof.
-  intros ts t d Hn Hlet.
-  pose proof (pratt_complete_partial_proof _ _ _ d Hn) as Hp.
-  destruct (derives_spells _ _ _ _ d Hn) as [Hs _].
-  destruct (spells_starts _ _ _ _ Hs) as [k [rest [E Hst]]]. subst ts.
+  intros ts t d Hlet.
+  pose proof (pratt_complete_proof _ _ _ d) as Hp.
+  destruct (derives_spells _ _ _ _ d) as [Hs _].
+  destruct (spells_starts _ _ _ Hs) as [k [rest [E Hst]]]. subst ts.
   destruct (starts_not_stmt _ Hst) as [Hkw Hsemi].
   specialize (Hlet k rest eq_refl). apply Z.eqb_neq in Hlet.
   unfold parse_program. cbn [parse_module length]. cbn [parse_stmt]. rewrite Hsemi, Hkw, Hlet.
